@@ -79,6 +79,148 @@ theorem sync (ns : List (List ContentChange)) (t : List Char) :
     | error e => simp
     | ok r => obtain ⟨cs, t'⟩ := r; simp [ih t']
 
+/-! ### reported positions address the same byte -/
+
+theorem utf16Len_pos (c : Char) : 1 ≤ utf16Len c := by unfold utf16Len; split <;> omega
+
+/-- the walk of `as_position` never goes back: the line does not decrease, and on the same line
+    the column does not decrease -/
+theorem asPositionGo_mono : ∀ (t : List Char) (i idx l c : Nat),
+    l < (asPositionGo t i idx l c).line ∨
+      ((asPositionGo t i idx l c).line = l ∧ c ≤ (asPositionGo t i idx l c).col)
+  | [], i, idx, l, c => by simp [asPositionGo]
+  | ch :: rest, i, idx, l, c => by
+    simp only [asPositionGo]
+    split
+    · simp
+    · split
+      · have := asPositionGo_mono rest (i + ch.utf8Size) idx (l + 1) 0
+        omega
+      · split
+        · have := asPositionGo_mono rest (i + ch.utf8Size) idx l (c + utf16Len ch)
+          omega
+        · exact asPositionGo_mono rest (i + ch.utf8Size) idx l c
+
+theorem isCrlf_true_iff (ch : Char) (rest : List Char) :
+    isCrlf ch rest = true ↔ ch = '\r' ∧ rest.head? = some '\n' := by
+  unfold isCrlf
+  cases rest with
+  | nil => simp
+  | cons d r => simp
+
+/-- **Round trip.**  For every text `a ++ b` and the byte index at the boundary between `a` and
+    `b` — unless that boundary lies between the `\r` and the `\n` of a CRLF pair —
+    `get_insertion_index(as_position(index))` is `index` again: a position the server reports
+    (token ranges, diagnostics, edits) addresses, when sent back, the byte it was computed from. -/
+theorem roundtrip_go : ∀ (a b : List Char) (i l c : Nat),
+    ¬ (a.getLast? = some '\r' ∧ b.head? = some '\n') →
+    insertionIndexGo (a ++ b) i (asPositionGo (a ++ b) i (i + utf8Len a) l c) l c = i + utf8Len a
+  | [], b, i, l, c, _ => by
+    cases b with
+    | nil => simp [asPositionGo, insertionIndexGo]
+    | cons ch r => simp [asPositionGo, insertionIndexGo]
+  | ch :: a', b, i, l, c, hb => by
+    have hsz := utf8Size_pos ch
+    have hne : (i == i + utf8Len (ch :: a')) = false := by
+      simp only [utf8Len_cons, beq_eq_false_iff_ne, ne_eq]; omega
+    have hb' : ¬ (a'.getLast? = some '\r' ∧ b.head? = some '\n') := by
+      intro hh
+      apply hb
+      cases a' with
+      | nil => simp at hh
+      | cons x xs => exact ⟨by rw [List.getLast?_cons_cons]; exact hh.1, hh.2⟩
+    have eidx : i + utf8Len (ch :: a') = (i + ch.utf8Size) + utf8Len a' := by
+      simp only [utf8Len_cons]; omega
+    rw [List.cons_append]
+    by_cases hterm : (ch == '\n' || (ch == '\r' && !isCrlf ch (a' ++ b))) = true
+    · -- a line terminator: the reported line is beyond the current one
+      have hpos : asPositionGo (ch :: (a' ++ b)) i (i + utf8Len (ch :: a')) l c =
+          asPositionGo (a' ++ b) (i + ch.utf8Size) (i + ch.utf8Size + utf8Len a') (l + 1) 0 := by
+        rw [asPositionGo]; simp only [hne, hterm, Bool.false_eq_true, if_false, if_true]; rw [eidx]
+      rw [hpos, eidx]
+      have ih := roundtrip_go a' b (i + ch.utf8Size) (l + 1) 0 hb'
+      have hm := asPositionGo_mono (a' ++ b) (i + ch.utf8Size) (i + ch.utf8Size + utf8Len a') (l + 1) 0
+      generalize asPositionGo (a' ++ b) (i + ch.utf8Size) (i + ch.utf8Size + utf8Len a') (l + 1) 0 = P at ih hm ⊢
+      rw [insertionIndexGo]
+      have hl : (l == P.line) = false := by
+        simp only [beq_eq_false_iff_ne, ne_eq]; omega
+      simp only [hl, Bool.false_and, Bool.false_eq_true, if_false, hterm, if_true]
+      exact ih
+    · have hterm' : (ch == '\n' || (ch == '\r' && !isCrlf ch (a' ++ b))) = false := by simpa using hterm
+      by_cases hcr : isCrlf ch (a' ++ b) = true
+      · -- the `\r` of a CRLF pair: the `\n` follows inside `a'` (the boundary is not in between)
+        have hpos : asPositionGo (ch :: (a' ++ b)) i (i + utf8Len (ch :: a')) l c =
+            asPositionGo (a' ++ b) (i + ch.utf8Size) (i + ch.utf8Size + utf8Len a') l c := by
+          rw [asPositionGo]
+          simp only [hne, hterm', Bool.false_eq_true, if_false]
+          simp only [hcr, Bool.not_true, Bool.false_eq_true, if_false]; rw [eidx]
+        rw [hpos, eidx]
+        have ih := roundtrip_go a' b (i + ch.utf8Size) l c hb'
+        obtain ⟨hch, hhead⟩ := (isCrlf_true_iff ch (a' ++ b)).mp hcr
+        -- a' is not empty, and starts with the newline: the reported line is beyond the current one
+        have hline : l < (asPositionGo (a' ++ b) (i + ch.utf8Size) (i + ch.utf8Size + utf8Len a') l c).line := by
+          cases a' with
+          | nil =>
+            exfalso
+            apply hb
+            exact ⟨by simp [hch], by simpa using hhead⟩
+          | cons d a'' =>
+            have hd : d = '\n' := by simpa using hhead
+            subst hd
+            have hne2 : (i + ch.utf8Size == i + ch.utf8Size + utf8Len ('\n' :: a'')) = false := by
+              have := utf8Size_pos '\n'
+              simp only [utf8Len_cons, beq_eq_false_iff_ne, ne_eq]; omega
+            rw [List.cons_append, asPositionGo]
+            simp only [hne2, Bool.false_eq_true, if_false, beq_self_eq_true, Bool.true_or, if_true]
+            have := asPositionGo_mono (a'' ++ b) (i + ch.utf8Size + '\n'.utf8Size)
+              (i + ch.utf8Size + utf8Len ('\n' :: a'')) (l + 1) 0
+            omega
+        generalize asPositionGo (a' ++ b) (i + ch.utf8Size) (i + ch.utf8Size + utf8Len a') l c = P at ih hline ⊢
+        rw [insertionIndexGo]
+        have hl : (l == P.line) = false := by
+          simp only [beq_eq_false_iff_ne, ne_eq]; omega
+        simp only [hl, Bool.false_and, Bool.false_eq_true, if_false, hterm']
+        simp only [hcr, Bool.not_true, Bool.false_eq_true, if_false]
+        exact ih
+      · -- an ordinary character: the reported column is beyond the current one
+        have hcr' : isCrlf ch (a' ++ b) = false := by simpa using hcr
+        have hpos : asPositionGo (ch :: (a' ++ b)) i (i + utf8Len (ch :: a')) l c =
+            asPositionGo (a' ++ b) (i + ch.utf8Size) (i + ch.utf8Size + utf8Len a') l (c + utf16Len ch) := by
+          rw [asPositionGo]
+          simp only [hne, hterm', Bool.false_eq_true, if_false]
+          simp only [hcr', Bool.not_false, if_true]; rw [eidx]
+        rw [hpos, eidx]
+        have ih := roundtrip_go a' b (i + ch.utf8Size) l (c + utf16Len ch) hb'
+        have hm := asPositionGo_mono (a' ++ b) (i + ch.utf8Size) (i + ch.utf8Size + utf8Len a') l (c + utf16Len ch)
+        have hu := utf16Len_pos ch
+        have hnl : (ch == '\n') = false := by
+          cases h1 : ch == '\n' <;> simp [h1] at hterm' ⊢
+        have hnr : (ch == '\r') = false := by
+          cases h1 : ch == '\r'
+          · rfl
+          · simp [h1, hcr'] at hterm'
+        generalize asPositionGo (a' ++ b) (i + ch.utf8Size) (i + ch.utf8Size + utf8Len a') l (c + utf16Len ch) = P at ih hm ⊢
+        rw [insertionIndexGo]
+        have hstop : (l == P.line && (decide (c ≥ P.col) || ch == '\n' || ch == '\r')) = false := by
+          simp only [hnl, hnr, Bool.or_false, Bool.and_eq_false_iff, beq_eq_false_iff_ne, ne_eq,
+            decide_eq_false_iff_not, ge_iff_le, Nat.not_le]
+          rcases hm with h1 | ⟨h1, h2⟩
+          · left; omega
+          · right; omega
+        simp only [hstop, Bool.false_eq_true, if_false, hterm']
+        simp only [hcr', Bool.not_false, if_true]
+        exact ih
+
+/-- **C08, second sentence.**  For every text and every byte index on a character boundary that
+    is not between the `\r` and `\n` of a CRLF pair (every token start is such an index, and every
+    token end except that of an unterminated character literal `'\r` directly before `\n`), the
+    position the server reports for the index addresses, when sent back, that same index. -/
+theorem position_roundtrip (a b : List Char)
+    (h : ¬ (a.getLast? = some '\r' ∧ b.head? = some '\n')) :
+    insertionIndex (asPosition (utf8Len a) (a ++ b)) (a ++ b) = utf8Len a := by
+  have := roundtrip_go a b 0 0 0 h
+  simpa [insertionIndex, asPosition] using this
+
 /-- Non-vacuity: an astral character, CRLF, an overshooting column and a full-text change. -/
 example : insertionIndex ⟨1, 99⟩ "a😀\r\nbé\r\nc".toList = 10 := by decide
 example : insertionIndex ⟨0, 2⟩ "a😀b".toList = 5 := by decide
